@@ -301,3 +301,138 @@ Definition obs_close (tol : Q) (a b : obs) : bool :=
   end.
 Definition history_agrees (tol : Q) (p : list step) (o : list obs) : bool :=
   list_eqb (obs_close tol) (run_history fresh p) o.
+
+(* ---------------------------------------------------------------- object store: state_dict / load_state_dict as written
+   fittable_base_transform.py:  state_dict() returns self.__dict__  -- the LIVE attribute dict, no copy;
+                                load_state_dict(sd) does self.__dict__.update(sd) and returns self.
+   A transform object is an entry of a heap: object id -> attribute dict (association list in insertion order).  A
+   state dict handed around is either a REFERENCE to an object's live dict (state_dict() itself) or a detached COPY
+   (copy.deepcopy / torch.save + torch.load).  The fitted attributes col_stats, data_size, num_classes, target_mean,
+   new_columns are set and read together; they are kept as ONE attribute "fit_attrs". *)
+Inductive aval := ANone | ABool (b : bool) | AKeys (k : list string) | AState (s : fitted).
+Definition adict := list (string * aval).
+
+Fixpoint dget (k : string) (d : adict) : option aval :=
+  match d with
+  | [] => None
+  | (k', v) :: r => if String.eqb k' k then Some v else dget k r
+  end.
+(* d[k] = v : an existing key keeps its position *)
+Fixpoint dset (k : string) (v : aval) (d : adict) : adict :=
+  match d with
+  | [] => [(k, v)]
+  | (k', v') :: r => if String.eqb k' k then (k', v) :: r else (k', v') :: dset k v r
+  end.
+(* d.update(s) *)
+Definition dupdate (d s : adict) : adict := fold_left (fun acc kv => dset (fst kv) (snd kv) acc) s d.
+
+(* the attribute dict of a transform value, and back (None: an attribute every use needs is missing -> AttributeError) *)
+Definition to_dict (t : transform) : adict :=
+  [("_transformed_stats"%string, match t_stats_keys t with Some k => AKeys k | None => ANone end);
+   ("_is_fitted"%string, ABool (t_is_fitted t))]
+  ++ match t_state t with Some s => [("fit_attrs"%string, AState s)] | None => [] end.
+Definition of_dict (d : adict) : option transform :=
+  match dget "_is_fitted" d, dget "_transformed_stats" d with
+  | Some (ABool b), Some ts =>
+      let keys := match ts with AKeys k => Some k | _ => None end in
+      let st := match dget "fit_attrs" d with Some (AState s) => Some s | _ => None end in
+      Some (mktransform b st keys)
+  | _, _ => None
+  end.
+
+Definition heap := list (nat * adict).
+Fixpoint hget (o : nat) (h : heap) : option adict :=
+  match h with [] => None | (o', d) :: r => if (o' =? o)%nat then Some d else hget o r end.
+Fixpoint hset (o : nat) (d : adict) (h : heap) : heap :=
+  match h with
+  | [] => [(o, d)]
+  | (o', d') :: r => if (o' =? o)%nat then (o', d) :: r else (o', d') :: hset o d r
+  end.
+
+Inductive sref := RLive (o : nat) | RCopy (d : adict).
+(* sd = obj.state_dict()  /  copy.deepcopy(obj.state_dict()) *)
+Definition st_state_dict (h : heap) (o : nat) (copy : bool) : option sref :=
+  d <- hget o h ;; Some (if copy then RCopy d else RLive o).
+Definition deref (h : heap) (r : sref) : option adict :=
+  match r with RLive o => hget o h | RCopy d => Some d end.
+(* dst.load_state_dict(sd) *)
+Definition st_load (h : heap) (dst : nat) (r : sref) : option heap :=
+  dd <- hget dst h ;; s <- deref h r ;; Some (hset dst (dupdate dd s) h).
+(* the seeded variant C17_10: self.__dict__.clear() before the update -- the source is read AFTER the clear *)
+Definition st_load_clear (h : heap) (dst : nat) (r : sref) : option heap :=
+  _ <- hget dst h ;;
+  let h1 := hset dst [] h in
+  s <- deref h1 r ;; Some (hset dst (dupdate [] s) h1).
+(* CatToNumTransform() *)
+Definition st_new (h : heap) : nat * heap := let o := length h in (o, h ++ [(o, to_dict fresh)]).
+(* obj.fit(tf, cs): _fit assigns the attributes, fit sets _is_fitted *)
+Definition st_fit (h : heap) (o : nat) (tf : tframe) (cs : col_stats) : option heap :=
+  d <- hget o h ;; t <- of_dict d ;; t' <- fit t tf cs ;; Some (hset o (dupdate d (to_dict t')) h).
+Definition st_call (h : heap) (o : nat) (tf : tframe) : option tframe :=
+  d <- hget o h ;; t <- of_dict d ;; call t tf.
+Definition st_keys (h : heap) (o : nat) : option (list string) :=
+  d <- hget o h ;; t <- of_dict d ;; transformed_stats_keys t.
+
+(* histories over several transform objects, as the harness drives them: slot i holds the object currently bound to
+   the harness variable t_i; a round trip into a fresh instance rebinds the slot *)
+Inductive rt_kind := RtFresh (copy : bool) | RtSelf | RtSelf2.
+Inductive mstep :=
+  | MFit (i : nat) (tf : tframe) (cs : col_stats) | MCall (i : nat) (tf : tframe) | MKeys (i : nat)
+  | MRound (i : nat) (k : rt_kind)            (* t_i = New().load_state_dict(sd(t_i)) / t_i.load_state_dict(t_i.state_dict()) *)
+  | MSave (i : nat) (copy : bool)             (* s_i = t_i.state_dict()  (live)  /  a detached copy of it *)
+  | MLoad (i : nat) (into_self : bool).       (* t_i = New().load_state_dict(s_i)  /  t_i.load_state_dict(s_i) *)
+
+Record world := mkworld { w_heap : heap; w_slot : list (nat * nat); w_saved : list (nat * sref) }.
+Fixpoint nget {A} (i : nat) (l : list (nat * A)) : option A :=
+  match l with [] => None | (j, a) :: r => if (j =? i)%nat then Some a else nget i r end.
+Definition nset {A} (i : nat) (a : A) (l : list (nat * A)) : list (nat * A) := (i, a) :: l.
+
+(* the object bound to slot i; a slot is created (CatToNumTransform()) at its first use *)
+Definition slot_obj (w : world) (i : nat) : nat * world :=
+  match nget i (w_slot w) with
+  | Some o => (o, w)
+  | None => let '(o, h) := st_new (w_heap w) in (o, mkworld h (nset i o (w_slot w)) (w_saved w))
+  end.
+
+Definition load_fresh (w : world) (i : nat) (r : sref) : option world :=
+  let '(o', h) := st_new (w_heap w) in
+  h' <- st_load h o' r ;; Some (mkworld h' (nset i o' (w_slot w)) (w_saved w)).
+
+Fixpoint run_store (w : world) (p : list mstep) : list obs :=
+  match p with
+  | [] => []
+  | MFit i tf cs :: r =>
+      let '(o, w1) := slot_obj w i in
+      match st_fit (w_heap w1) o tf cs with
+      | Some h => ODone :: run_store (mkworld h (w_slot w1) (w_saved w1)) r
+      | None => [OErr]
+      end
+  | MCall i tf :: r => let '(o, w1) := slot_obj w i in observe (st_call (w_heap w1) o tf) :: run_store w1 r
+  | MKeys i :: r =>
+      let '(o, w1) := slot_obj w i in
+      (match st_keys (w_heap w1) o with Some k => OKeys k | None => OErr end) :: run_store w1 r
+  | MRound i k :: r =>
+      let '(o, w1) := slot_obj w i in
+      let res := match k with
+                 | RtFresh copy => sd <- st_state_dict (w_heap w1) o copy ;; load_fresh w1 i sd
+                 | RtSelf => h <- st_load (w_heap w1) o (RLive o) ;; Some (mkworld h (w_slot w1) (w_saved w1))
+                 | RtSelf2 => h <- st_load (w_heap w1) o (RLive o) ;; h2 <- st_load h o (RLive o) ;;
+                              Some (mkworld h2 (w_slot w1) (w_saved w1))
+                 end in
+      match res with Some w2 => ODone :: run_store w2 r | None => OErr :: run_store w1 r end
+  | MSave i copy :: r =>
+      let '(o, w1) := slot_obj w i in
+      match st_state_dict (w_heap w1) o copy with
+      | Some sd => ODone :: run_store (mkworld (w_heap w1) (w_slot w1) (nset i sd (w_saved w1))) r
+      | None => OErr :: run_store w1 r
+      end
+  | MLoad i into_self :: r =>
+      let '(o, w1) := slot_obj w i in
+      let res := sd <- nget i (w_saved w1) ;;
+                 if into_self then h <- st_load (w_heap w1) o sd ;; Some (mkworld h (w_slot w1) (w_saved w1))
+                 else load_fresh w1 i sd in
+      match res with Some w2 => ODone :: run_store w2 r | None => OErr :: run_store w1 r end
+  end.
+
+Definition store_history_agrees (tol : Q) (p : list mstep) (o : list obs) : bool :=
+  list_eqb (obs_close tol) (run_store (mkworld [] [] []) p) o.
